@@ -73,10 +73,19 @@ def gen_program(rng, size: int = 10, with_args: bool = True, control_flow: bool 
         if how == "value_floats":
             d = [rng.choice([0.5, 0.1, 2.75, -1.0]) for _ in range(rng.randrange(1, 4))]
             return emit({"op": "const", "how": how, "data": d}, _V("tensor", "f32", [len(d)], True))
+        # strings incl. non-ASCII, embedded / trailing NULs; given as str or as UTF-8 bytes
         if how == "value_string":
-            return emit({"op": "const", "how": how, "data": rng.choice(["a", "ü", "hello"])}, _V("tensor", "str", [], True))
-        d = [rng.choice(["a", "ü", "hello", ""]) for _ in range(rng.randrange(1, 4))]
-        return emit({"op": "const", "how": how, "data": d}, _V("tensor", "str", [len(d)], True))
+            st = {"op": "const", "how": how, "data": rng.choice(["a", "ü", "hello", "a\0", "a\0b", "ü\0", "\0x"])}
+            if rng.random() < 0.4:  # UTF-8 bytes, mostly non-ASCII
+                st["bytes"] = True
+                st["data"] = rng.choice(["ü", "ü\0", "aü", "hello", "日本"])
+            return emit(st, _V("tensor", "str", [], True))
+        d = [rng.choice(["a", "ü", "hello", "", "a\0", "x\0y"]) for _ in range(rng.randrange(1, 4))]
+        st = {"op": "const", "how": how, "data": d}
+        if rng.random() < 0.4:
+            st["bytes"] = True
+            st["data"] = [rng.choice(["ü", "a", "aü\0", "日本"]) for _ in d]
+        return emit(st, _V("tensor", "str", [len(d)], True))
 
     def new_arg(dt=None, shape=None):
         dt = dt or rng.choice(NUM)
@@ -510,7 +519,12 @@ def apply_step(step: dict, vars_: list) -> list:
             return [op.constant(value=_array(step))]
         if how == "init":
             return [initializer(_array(step))]
-        if how in ("value_int", "value_float", "value_string"):
+        enc = (lambda x: x.encode("utf-8")) if step.get("bytes") else (lambda x: x)
+        if how == "value_string":
+            return [op.constant(value_string=enc(step["data"]))]
+        if how == "value_strings":
+            return [op.constant(value_strings=[enc(x) for x in step["data"]])]
+        if how in ("value_int", "value_float"):
             return [op.constant(**{how: step["data"]})]
         return [op.constant(**{how: list(step["data"])})]
     if o == "arg":
@@ -663,6 +677,22 @@ def to_plain(x) -> Any:
     return x
 
 
+def nul_class(prop, runtime) -> Optional[str]:
+    """Is the difference between two string values only about NUL characters? -> finding family."""
+    try:
+        a = [str(x) for x in np.asarray(prop).reshape(-1)]
+        b = [str(x) for x in np.asarray(runtime).reshape(-1)]
+    except Exception:  # noqa: BLE001
+        return None
+    if len(a) != len(b) or a == b:
+        return None
+    if all(x == y.rstrip("\0") for x, y in zip(a, b)):
+        return "trailing-NUL-stripped"
+    if all(x == y or x == y.split("\0")[0] or x == y.rstrip("\0") for x, y in zip(a, b)):
+        return "embedded-NUL-truncated"
+    return None
+
+
 def values_equal(a, b, rtol=1e-6) -> Optional[str]:
     """Compare a propagated value (ORT format) with a runtime result; None if equal."""
     if a is None or b is None:
@@ -800,6 +830,11 @@ def c07_check_program(steps: list, sel: str, seed: int) -> dict:
                 if opn in ("topk", "split", "unique", "inline", "inline0", "intros"):
                     stats["multi"] += 1
                 why = values_equal(v._get_value(), o)
+                if why == "strings-differ":
+                    fam = nul_class(v._get_value(), o)
+                    if fam:  # numpy fixed-width strings / the ORT feed drop NULs: its own (listed) family
+                        fails.append((f"string:{fam}", f"[{sel}] var {i} ({opn}): propagated {v._get_value()!r:.60} but the built model computes {o!r:.60}"))
+                        why = None
                 if why:
                     # onnxruntime is the reference for "what the model computes", but it has defects of its
                     # own (1.30: Gather on 2-D string tensors drops elements). A disagreement counts only if
@@ -930,6 +965,10 @@ def _graph_sig(graph) -> list:
         [t.SerializeToString(deterministic=True) for t in g.initializer]
 
 
+def json_short(step) -> str:
+    return str({k: v for k, v in step.items() if k != "data"} | {"data": str(step.get("data"))[:40]})
+
+
 def off_check_program(steps: list, sel: str, seed: int) -> dict:
     """Build the program with propagation on and off: same nodes, same behaviour."""
     import spox
@@ -938,6 +977,9 @@ def off_check_program(steps: list, sel: str, seed: int) -> dict:
     on = run_program(steps, sel)
     off = run_program(steps, "none")
     if on["raised"]:
+        st, cls, msg = on["raised"]
+        if steps[st]["op"] == "const":  # no backend involved: spox's own Constant / initializer propagation raised
+            return {"failures": [(f"const-raises:{cls}", f"constructing {json_short(steps[st])} raised {cls}: {msg[:100]}")]}
         return {"failures": [], "infra": f"program raised {on['raised']}"}
     if off["raised"]:
         st, cls, msg = off["raised"]
